@@ -371,23 +371,28 @@ def gen_case(rng, depth):
                         env[str(n)] = rng.choice(CMP_VALUES + [None] if cmpy else VALUES)
             sc["second"] = {"ast": a2, "canon": c2, "text": render(t2, alt, rng) if alt else c2,
                             "expected": rng.random() < 0.5}
-            # two entries whose expressions print to the same key (same operands and operators in the
-            # same order, whatever the grouping) are de-duplicated by the executor: keep them apart
+            # two entries with the same expression tree (after the left-nesting the library applies to
+            # n-ary and / or and to comparison chains) have one executor key and are one conjunct: keep
+            # them apart.  Entries that differ only in grouping are kept (that was D20, repaired).
             def flat(e):
                 if e[0] == "n":
-                    return [NAMES[e[1]]]
+                    return NAMES[e[1]]
                 if e[0] == "c":
-                    return [repr(e[1])]
+                    return repr(e[1])
                 if e[0] == "not":
-                    return ["not"] + flat(e[1])
+                    return "not(" + flat(e[1]) + ")"
                 if e[0] in ("and", "or"):
-                    out = []
-                    for i, x in enumerate(e[1]):
-                        out += ([e[0]] if i else []) + flat(x)
+                    out = flat(e[1][0])
+                    for x in e[1][1:]:
+                        out = "(" + out + " " + e[0] + " " + flat(x) + ")"
                     return out
-                out = flat(e[1])
+                parts, left = [], flat(e[1])
                 for op, x in e[2]:
-                    out += [op] + flat(x)
+                    parts.append("(" + left + " " + op + " " + flat(x) + ")")
+                    left = flat(x)
+                out = parts[0]
+                for q in parts[1:]:
+                    out = "(" + out + " and " + q + ")"
                 return out
             if flat(a2) == flat(a):
                 del sc["second"]
@@ -443,7 +448,7 @@ def generate(rng, tier):
     parts.append(("random expressions (depth 1..4 quick / 6 thorough: names containing v/not/and/or, constants, "
                   "chained comparisons, either spelling, 0-2 spaces, redundant parentheses), names provided as "
                   "property / method / attribute on machine / model / listener, 1-4 valuations each", n))
-    # two valid entries that differ only in grouping (known finding D20)
+    # two valid entries that differ only in grouping (D20, repaired: must behave as two conjuncts)
     import ast as _ast
     t1, t2 = ["and", [["n", 6], ["or", [["n", 0], ["n", 1]]]]], ["or", [["and", [["n", 6], ["n", 0]]], ["n", 1]]]
     scs.append({"ast": from_ast(_ast.parse(render(t1, None), mode="eval").body), "canon": render(t1, None),
